@@ -277,7 +277,9 @@ def classify_history(case):
 _small_body = st.one_of(
     st.just(('', [])),
     S.typed_values(max_types=2, depth=1),
-    st.sampled_from([('(ii)', [[1, 2]]), ('s', ['x']), ('as', [[]]), ('v', [['s', 'q']]), ('ii', [1, 2])]),
+    st.sampled_from([('(ii)', [[1, 2]]), ('s', ['x']), ('as', [[]]), ('v', [['s', 'q']]), ('ii', [1, 2]),
+                     ('a(ii)', [[[1, 2], [3, 4]]]), ('a(si)', [[]]), ('a{s(ii)}', [[['k', [1, 2]]]]), ('aa(y)', [[[[7]]]]),
+                     ('(i(ss))', [[1, ['a', 'b']]]), ('av', [[['(ii)', [1, 2]]]])]),
 )
 
 
